@@ -572,6 +572,82 @@ func c10Subsets(n, k int) [][]int {
 	return out
 }
 
+// c10CrossKind: an extension registered for ONE kind only; the remote maps its URI - under two different ids - in
+// sections of the OTHER kind (two video sections of one offer, or two successive offers); the local side then
+// offers the registered kind itself (AddTransceiverFromKind + CreateOffer) while that kind was never negotiated.
+// Every generated description is judged like all others (each URI once per section, ids unique and in range).
+func c10CrossKind(t *testing.T, c *vkit.Check) {
+	const uri = "urn:ietf:params:rtp-hdrext:ssrc-audio-level"
+	vp8 := []vScanOfferCodec{{PT: 96, Name: "VP8", Clock: 90000, FB: []string{"nack", "nack pli"}}}
+	video := func(mid string, id int) vScanOfferSection {
+		return vScanOfferSection{Media: "video", Mid: mid, Dir: "sendrecv", Codecs: vp8, Ext: []vScanOfferExt{{ID: id, URI: uri}}}
+	}
+	for _, shape := range []string{"two-sections-one-offer", "two-successive-offers"} {
+		for _, registered := range []string{"audio", "video"} {
+			c.Eval()
+			cs := c10Case{Mode: "cross-kind", Prefs: "none"}
+			rep := map[string]any{"shape": shape, "registered_for": registered}
+			c.Guard("cross-kind", rep, func() {
+				api := vNewAPI(t, vAPIOpts{virtualNet: true, media: func(m *MediaEngine) error {
+					if err := m.RegisterDefaultCodecs(); err != nil {
+						return err
+					}
+
+					return m.RegisterHeaderExtension(RTPHeaderExtensionCapability{URI: uri}, c10Typ(registered))
+				}})
+				pc := vNewPC(t, api, nil)
+				defer func() { _ = pc.Close() }()
+				other := map[string]string{"audio": "video", "video": "audio"}[registered]
+				sec := func(mid string, id int) vScanOfferSection {
+					s := video(mid, id)
+					if other == "audio" {
+						s.Media = "audio"
+						s.Codecs = []vScanOfferCodec{{PT: 111, Name: "opus", Clock: 48000, Ch: 2, Fmtp: "minptime=10;useinbandfec=1"}}
+					}
+
+					return s
+				}
+				offers := [][]vScanOfferSection{{sec("0", 3), sec("1", 5)}}
+				if shape == "two-successive-offers" {
+					offers = [][]vScanOfferSection{{sec("0", 3)}, {sec("0", 5)}}
+				}
+				for i, o := range offers {
+					if err := pc.SetRemoteDescription(SessionDescription{Type: SDPTypeOffer, SDP: vScanWriteOffer(o)}); err != nil {
+						c.Outcome("cross-kind-offer-rejected")
+
+						return
+					}
+					a, err := pc.CreateAnswer(nil)
+					if err != nil {
+						c.Outcome("cross-kind-answer-error")
+
+						return
+					}
+					c10Check(c, map[string]bool{}, cs, fmt.Sprintf("cross-kind-answer-%d|%s|registered=%s", i+1, shape, registered), a.SDP)
+					if err = pc.SetLocalDescription(a); err != nil {
+						c.Outcome("cross-kind-set-local-error")
+
+						return
+					}
+				}
+				if _, err := pc.AddTransceiverFromKind(c10Typ(registered)); err != nil {
+					c.Outcome("cross-kind-add-transceiver-error")
+
+					return
+				}
+				off, err := pc.CreateOffer(nil)
+				if err != nil {
+					c.Outcome("cross-kind-offer-error")
+
+					return
+				}
+				c10Check(c, map[string]bool{}, cs, fmt.Sprintf("cross-kind-offer|%s|registered=%s", shape, registered), off.SDP)
+				c.Distinct("cross-kind|" + shape + "|" + registered)
+			})
+		}
+	}
+}
+
 func TestVerifC10(t *testing.T) {
 	c := vkit.New("C10", "exploration")
 	defer c.Finish(t)
@@ -591,6 +667,7 @@ func TestVerifC10(t *testing.T) {
 		return
 	}
 
+	c10CrossKind(t, c)
 	var cases []c10Case
 	// ---- offer mode ----
 	codecSubsets := c10Subsets(len(c10VideoPool), c.Pick(3, 4))[1:] // non-empty
